@@ -3,15 +3,15 @@
 # to /repo in turn and runs all 20 quick checks against it; no check may report a violation.
 # Results: seeded/refactor/results/<patch>.json (summary printed by seedtest.py).  /repo must be clean.
 cd "$(dirname "$0")"
-mkdir -p seeded/refactor/results
-for p in seeded/refactor/patch*.diff; do
+mkdir -p ${RDIR:-seeded/refactor}/results
+for p in ${RDIR:-seeded/refactor}/patch*.diff; do
   n=$(basename "$p" .diff)
-  python3 seedtest.py "$p" - --all ${TIER:+--tier $TIER} > "seeded/refactor/results/$n.json" 2>&1
+  python3 seedtest.py "$p" - --all ${TIER:+--tier $TIER} > "${RDIR:-seeded/refactor}/results/$n.json" 2>&1
   python3 - "$n" <<'PY'
 import json,sys
 n=sys.argv[1]
 try:
-    r=json.load(open(f"seeded/refactor/results/{n}.json"))
+    r=json.load(open(f"{__import__('os').environ.get('RDIR','seeded/refactor')}/results/{n}.json"))
     print(n, "tests_pass=%s" % r.get("existing_tests_pass"), "alarms=%s" % r.get("detected_by"), flush=True)
 except Exception as e:
     print(n, "unreadable summary:", e, flush=True)
